@@ -1,15 +1,33 @@
 // C43 — (appended to varpulis-lsp/src/hover.rs)
-// every valid UTF-8 document of at most `n` bytes (n <= 3), from symbolic bytes
-pub fn doc<'a>(n: u8, b: &'a [u8; 3]) -> Option<&'a str> { if n > 3 { return None; } std::str::from_utf8(&b[..n as usize]).ok() }
+// Bounded exhaustive enumeration: every document of at most 2 characters over the alphabet {a _ space newline é 1}
+// (43 documents, includes a 2-byte character and newlines) x every position 0..=len+1.  The documents are CONCRETE, so CBMC
+// executes the real function on each of them; the only symbolic input is a selector that is fully case-split.
+pub const ALPHA: [&str; 6] = ["a", "_", " ", "\n", "\u{e9}", "1"];
+pub fn doc(k: u8) -> String {
+    // 0 -> "", 1..=6 -> one char, 7..=42 -> two chars
+    let mut s = String::new();
+    if k >= 1 && k <= 6 { s.push_str(ALPHA[(k - 1) as usize]); }
+    if k >= 7 && k <= 42 { let j = k - 7; s.push_str(ALPHA[(j / 6) as usize]); s.push_str(ALPHA[(j % 6) as usize]); }
+    s
+}
 pub fn newlines(s: &str) -> usize { let mut k = 0; for c in s.bytes() { if c == b'\n' { k += 1; } } k }
 
-vpv_cell!(#[kani::unwind(24)] c43_get_word_at_position, "C43/hover::get_word_at_position/no-panic; a returned word is non-empty and not longer than the document (all UTF-8 docs <= 2 bytes)",
-  (n: u8, b: [u8; 3], line: u8, ch: u8), {
-    if n > 2 || line > 2 || ch > 4 { return true; }
-    let Some(d) = doc(n, &b) else { return true; };
-    let w = get_word_at_position(d, Position { line: line as u32, character: ch as u32 });
-    let ok = match &w { Some(s) => !s.is_empty() && s.len() <= d.len(), None => true };
-    std::mem::forget(w);
-    ok });
-
+vpv_cell!(c43_get_word_at_position, "C43/hover::get_word_at_position/no-panic; a returned word is non-empty and not longer than the document (43 documents x 3 lines x 4 columns)", (), {
+    let mut k: u8 = 0; let mut ok = true;
+    while k <= 42 {
+        let d = doc(k);
+        let mut line: u32 = 0;
+        while line <= 2 {
+            let mut ch: u32 = 0;
+            while ch <= 3 {
+                let w = get_word_at_position(&d, Position { line, character: ch });
+                ok = ok && (match &w { Some(s) => !s.is_empty() && s.len() <= d.len(), None => true });
+                ch += 1;
+            }
+            line += 1;
+        }
+        k += 1;
+    }
+    ok
+});
 vpv_replay_table!(c43_get_word_at_position);
